@@ -8,6 +8,7 @@ Bad(what) == Print(<<"TRACE-REJECT", l, what>>, TRUE)
 UnifyEv(e) ==
   IF "panic" \in DOMAIN e THEN Bad(<<"C14", "unify panicked">>)
   ELSE IF e.ctx_after # 0 THEN Bad(<<"C18", "the definitions context was not restored">>)
+  ELSE IF e.res /\ e.kind = "conv-no" THEN Bad(<<"C06", "terms with different normal forms are judged equal", "swap", e.swap>>)
   ELSE IF e.res THEN
      (IF ~Acyclic(e.a, e.b, e.store) THEN Bad(<<"C12", "a hole is solved by a term containing itself", e.kind>>)
       ELSE IF ~ScopeSafe(e.a, e.b, e.store, 0) THEN Bad(<<"C12", "a solution mentions a variable that is not in scope where its hole was written", e.kind>>)
@@ -16,6 +17,7 @@ UnifyEv(e) ==
                  "modulo_unsolved", ConsistentModuloUnsolved(e.a, e.b, e.store, <<>>)>>)
       ELSE TRUE)
   ELSE IF e.kind = "reduct" THEN Bad(<<"C12", "a hole-free term does not unify with itself / its reduct">>)
+  ELSE IF e.kind = "conv-yes" THEN Bad(<<"C06", "terms with the same normal form are judged different", "swap", e.swap>>)
   ELSE TRUE
 TInit == l = 1
 TNext == l <= Len(Rec) /\ l' = l + 1 /\ (IF Rec[l].ev = "unify" THEN UnifyEv(Rec[l]) ELSE Bad(<<"tool", "unknown event">>))
